@@ -707,6 +707,33 @@ func edgeCase(id int) caseT {
 	return c
 }
 
+// long idle gaps: the array is left untouched for k*2^31 / k*2^32 ms (+ less than one interval), then read at a time
+// that selects a different slot than the stale one (so currentBucketOfTime does not roll the stale slot over):
+// the age now-BucketStart must be compared as a uint64; a narrowed age (uint32/int32) wraps and the 49-day-old
+// counts become visible again. Sequential, nobody stalled: the monitor's expired_invisible clause applies.
+func wrapTicks() []int64 {
+	return []int64{1 << 31, 1 << 32, 1<<32 + 300, 1 << 33, 3 << 32, 1<<32 - 1, 1 << 63 >> 20}
+}
+
+func wrapCase(id int, j int) caseT {
+	geos := [][2]int64{{2, 1000}, {2, 500}, {3, 100}, {4, 250}}
+	ge := geos[j%len(geos)]
+	c := caseT{ID: id, N: int(ge[0]), BL: ge[1], T0: tBase, Mode: "script", Note: "idle-gap-wrap"}
+	interval := int64(c.N) * c.BL
+	base := wrapTicks()[(j/len(geos))%len(wrapTicks())]
+	idx := func(t int64) int64 { return (t / c.BL) % int64(c.N) }
+	dt := base
+	for d := int64(0); d < interval; d += c.BL / 2 { // smallest offset < interval that selects another slot
+		if idx(c.T0+base+d) != idx(c.T0) {
+			dt = base + d
+			break
+		}
+	}
+	c.Progs = [][]opT{{{Kind: "rec", Ev: 0, Amt: 5}}, {{Kind: "read", Ev: 0}}, {{Kind: "rec", Ev: 0, Amt: 1}, {Kind: "read", Ev: 0}}}
+	c.Setup = []evT{{Tid: 0}, {Tid: -1, Dt: dt}, {Tid: 1}, {Tid: 2}}
+	return c
+}
+
 // corpus: regression witnesses kept as files (corpus/C09/*.json, field "case"); ids corpusBase+i in
 // file-name order. The directory is looked up from the working directory and from the executable upwards.
 func corpusDir() string {
@@ -861,6 +888,8 @@ func main() {
 			return corpus[id-corpusBase], nil
 		case id == edgeBase:
 			return edgeCase(id), nil
+		case id >= wrapBase && id < wrapBase+nWrap:
+			return wrapCase(id, id-wrapBase), nil
 		case id < d7Base:
 			c := genRandom(root.Fork(uint64(id)), id)
 			return c, randomChooser(root.Fork(uint64(id) + 1<<40))
@@ -894,6 +923,9 @@ func main() {
 		runID(d7Base+p, !a.Search)
 	}
 	runID(edgeBase, !a.Search)
+	for j := 0; j < nWrap; j++ {
+		runID(wrapBase+j, !a.Search)
+	}
 	for i := range corpus {
 		runID(corpusBase+i, !a.Search)
 	}
